@@ -569,6 +569,58 @@ func (c *Ctx) proxySites(methodNames ...string) []proxySite {
 			out = append(out, proxySite{fd: fd, lit: lit, typ: st, ord: ord, label: fmt.Sprintf("%s#%d", c.funcName(fd), ord)})
 			return true
 		})
+		// a proxy given a name: a literal of an unexported struct type of the package (no encoder of its own, every
+		// field tagged) that a view function returns, every member of which is copied from one object
+		ast.Inspect(fd.Body, func(n ast.Node) bool {
+			rs, ok := n.(*ast.ReturnStmt)
+			if !ok || len(rs.Results) != 1 {
+				return true
+			}
+			e := unparen(rs.Results[0])
+			if u, ok := e.(*ast.UnaryExpr); ok && u.Op == token.AND {
+				e = unparen(u.X)
+			}
+			lit, ok := e.(*ast.CompositeLit)
+			if !ok {
+				return true
+			}
+			nt, isNamedT := types.Unalias(c.typeOf(lit)).(*types.Named)
+			if !isNamedT || nt.Obj().Pkg() != c.Types || nt.Obj().Exported() || declaredMethod(nt, "MarshalJSON") != nil {
+				return true
+			}
+			st, ok := nt.Underlying().(*types.Struct)
+			if !ok || st.NumFields() < 2 || len(lit.Elts) < 2 {
+				return true
+			}
+			for i := 0; i < st.NumFields(); i++ {
+				if tagName(st.Tag(i)) == "" {
+					return true
+				}
+			}
+			var root types.Object
+			same := true
+			for _, el := range lit.Elts {
+				kv, isKV := el.(*ast.KeyValueExpr)
+				if !isKV {
+					return true
+				}
+				p, okp := c.apath(kv.Value)
+				if !okp || len(p.Steps) == 0 {
+					continue
+				}
+				if root == nil {
+					root = p.Root
+				} else if root != p.Root {
+					same = false
+				}
+			}
+			if root == nil || !same {
+				return true
+			}
+			ord++
+			out = append(out, proxySite{fd: fd, lit: lit, typ: st, ord: ord, label: fmt.Sprintf("%s#%d", c.funcName(fd), ord)})
+			return true
+		})
 	}
 	return out
 }
